@@ -233,7 +233,7 @@ func Nitro(wdt float64, subd int, zeit int, g *GlobalVarsMain, l *NitroSharedVar
 	//! ++++++++++++++++++++++ Adaptation tillage to automatic sowing/harvest (if harvest later) +++++++++++++++++++++++
 	if subd == 1 {
 		if zeit == g.EINTE[g.NTIL.Index+1] {
-			if g.SAAT[g.AKF.Index] > 0 && g.ERNTE[g.AKF.Index] == 0 {
+			if g.SAAT[g.AKF.Index] > 0 && zeit > g.SAAT[g.AKF.Index] && g.ERNTE[g.AKF.Index] == 0 {
 				g.EINTE[g.NTIL.Index+1] = g.EINTE[g.NTIL.Index+1] + 2
 			}
 		}
